@@ -38,6 +38,12 @@ CHECKS = {
     "C15": dict(cat="exploration", tech=E_IN, ref="DESIGN.md 4/C15",
                 text="(a) every conditional of three formula families through belief_base_to_cnf and query_to_cnf x all complete assignments, satisfiability under the assignment decided by a hand-written DPLL; (b) minimal_correction_subsets on every WCNF shape the operators build (layers, fixed ties, c-inference compilations, unsatisfiable hard parts) for structure representatives x 5 rc2 SAT engines (thorough: all usable), against the inclusion-minimal falsification sets computed over worlds.",
                 note="Trusted: vf/ref.py, the DPLL in vf/checks/c15.py. Engines that are not installed are excluded by a run-time probe."),
+    "C16": dict(cat="model_checking", tech="explicit-state BFS over the lazy rank cache of the real ranking objects (state = ranks table, every transition executed on the implementation) plus bounded-exhaustive input exploration against brute-force Z-ranks", ref="DESIGN.md 4/C16",
+                text="For every base of the two-atom scopes (semantic classes of single conditionals, structure representatives of pairs) x 15 fact lists x extended in {None,False,True}, and structure representatives over three atoms: ranks (lazy, forced, all at once), acceptance of base conditionals, acceptance == System Z (reference and operator), refusal with diagnostics; complete BFS over all 16 cache states of 4-world objects and all 256 states of selected 8-world objects with the invariant checked on every transition.",
+                note="Trusted: vf/ref.py. States are restored by assigning the ranks table; validated by replaying BFS-tree paths on fresh objects (traces_validated_against_impl)."),
+    "C18": dict(cat="exploration", tech=E_IN, ref="DESIGN.md 4/C18",
+                text="All rank tables -> {0..3} over 1 and 2 atoms and a stated family over 3 atoms (thorough: all 6561 tables -> {0..2}) x every formula / conditional / proper atom subset / layer numbering of the families: formula_rank, conditional_acceptance, marginalize, both conditionalisations, ranks2tpo/tpo2ranks against the five laws evaluated by brute force; custom and System Z objects.",
+                note="Signatures of 1-3 atoms only."),
 }
 
 NOT_YET = "check under construction in this session (see DESIGN.md section 4 for the planned exploration)"
